@@ -29,6 +29,7 @@ type c01State struct {
 }
 
 type c01World struct {
+	restarts int
 	*storSim
 	owner    chain.Account
 	accounts []chain.Account // everybody who may submit proofs
@@ -775,6 +776,16 @@ func TestC01(t *testing.T) {
 						}
 					}
 				}
+			},
+			// a restart from an exported genesis: proof records are not part of the storage genesis (a known C19 finding), so
+			// afterwards nobody has proven anything "recently"; what the property demands is unchanged - nobody keeps prover
+			// status or gets paid except through a valid proof (or attestation quorum) of its own
+			"restart": func(rt *rapid.T) {
+				if w.restarts >= 1 || len(w.files) == 0 {
+					rt.Skip()
+				}
+				w.restartStorage()
+				w.restarts++
 			},
 			"shutdown": func(rt *rapid.T) { // a provider record goes away (collateral refunded); files it proves keep listing it
 				a := w.accounts[rapid.IntRange(0, len(w.accounts)-1).Draw(rt, "who")]
